@@ -154,6 +154,7 @@ def run(tier, seed):
         for i0 in range(0, L.n_cells, step):
             T.run('grid_catalog', {'lattice': lat, 'probe': {'cells': [i0, min(i0 + 150, L.n_cells)], 'ulps': [1], 'beyond': i0 == 0},
                                    'in_place': bool((i0 // step) % 2)}, key=('catalog', name, i0))
+        G._CACHE.clear()    # built regions are large; keep one at a time
     return T.result(bound='%d generated lattices (9 anchors x 7 spacings x %d shapes, mask flags, all subsets of a 2x2 block, random up to %dx%d) '
                           'x {centre, 4 corner combinations x (0, +-1..4 ulps) x 4 directions per cell, hole centres, ring and far points beyond the box}; '
                           'shipped regions built offline: %s; not built (skipped): %s'
